@@ -204,7 +204,7 @@ CLAIMS["C20"] = {
             "-> guard match with the remaining statements in the other arm, the duplicated arm proved dead). Assumed: vstd's "
             "BTreeMap / BTreeSet iterator and HashSet::insert specs, lawfulness of the derived Ord of Key / Formatter and of "
             "the derived Hash/Eq of Options. Termination of the recursion is not proved (exec_allows_no_decreases_clause).",
-    "design_ref": "DESIGN.md section 8.16",
+    "design_ref": "DESIGN.md section 8.20",
 }
 
 NOT_APPLICABLE = {
